@@ -49,14 +49,40 @@ def _p6(rep):
     enum_calls = [m for m in find(iv.body, "mcall") if m["m"] == "values" and path_of(m["recv"]) == "self"]
     from .core import walk_guards
 
+    from .canon import canon_view
+
+    def is_len_test(c):
+        """`self.values_len()` is Some(l) with l < (or <=) self.max_value_len(): map(..).unwrap_or(false) / map_or(false, ..) / is_some_and(..)"""
+        while c["k"] == "paren":
+            c = c["e"]
+        if c["k"] != "mcall":
+            return False
+        clo = None
+        if c["m"] == "unwrap_or" and len(c["args"]) == 1 and show(c["args"][0], 0).strip() == "false" and c["recv"]["k"] == "mcall" and c["recv"]["m"] == "map" and len(c["recv"]["args"]) == 1:
+            clo, base = c["recv"]["args"][0], c["recv"]["recv"]
+        elif c["m"] == "map_or" and len(c["args"]) == 2 and show(c["args"][0], 0).strip() == "false":
+            clo, base = c["args"][1], c["recv"]
+        elif c["m"] == "is_some_and" and len(c["args"]) == 1:
+            clo, base = c["args"][0], c["recv"]
+        if clo is None or clo["k"] != "closure" or show(base, 0).replace(" ", "") != "self.values_len()" or len(clo["params"]) != 1 or clo["params"][0]["k"] != "ident":
+            return False
+        b = clo["body"]
+        while b["k"] == "block" and len(b["stmts"]) == 1 and b["stmts"][0]["k"] == "expr":
+            b = b["stmts"][0]["e"]
+        if b["k"] != "binary":
+            return False
+        l, r, o = show(b["lhs"], 0).replace(" ", "").lstrip("*"), show(b["rhs"], 0).replace(" ", "").lstrip("*"), b["op"].strip()
+        prm, cap = clo["params"][0]["name"], "self.max_value_len()"
+        return (o in ("<", "<=") and l == prm and r == cap) or (o in (">", ">=") and r == prm and l == cap)
+
     ok_guard = False
-    for x, guards in walk_guards(iv.body):
+    ivc = canon_view(iv, src, helpers=False)  # `let max_len = self.max_value_len();` used once is read through
+    enum_calls = [m for m in find(ivc.body, "mcall") if m["m"] == "values" and path_of(m["recv"]) == "self"]
+    for x, guards in walk_guards(ivc.body):
         if x["k"] == "mcall" and x["m"] == "values" and path_of(x["recv"]) == "self":
             for g in guards:
-                if g[0] == "if" and g[2] is True:
-                    t = show(g[1], 0).replace(" ", "")
-                    if "self.values_len()" in t and "self.max_value_len()" in t and ("<self.max_value_len()" in t or "<=self.max_value_len()" in t):
-                        ok_guard = True
+                if g[0] == "if" and g[2] is True and is_len_test(g[1]):
+                    ok_guard = True
     rep.instance("P6", "Intervals<i64>::into_values@guard", {"enumerations": len(enum_calls), "guarded_by_length_test": ok_guard})
     if enum_calls and not ok_guard:
         rep.violation("P6", "Intervals<i64>::into_values@guard", "self.values() is materialised without the test `values_len() < max_value_len()`", iv.where())
